@@ -13,7 +13,7 @@ def catalogue (c : CompId) : CompInfo :=
   | 0 => ⟨false, none, none, false, false⟩            -- A trivial
   | 1 => ⟨true, some 1001, none, false, true⟩         -- B heap-owning, counted
   | 2 => ⟨true, some 1002, none, false, false⟩        -- C over-aligned
-  | 3 => ⟨false, none, some 0, false, false⟩          -- D empty
+  | 3 => ⟨false, none, some 0, true, false⟩           -- D empty, trivially constructible, callbacks
   | 4 => ⟨false, none, none, false, false⟩            -- E large trivial
   | 5 => ⟨true, some 1005, none, true, false⟩         -- F callbacks
   | 6 => ⟨true, some 1006, none, false, true⟩         -- G heap-owning, counted
